@@ -6,7 +6,7 @@ V = os.path.dirname(os.path.dirname(os.path.abspath(__file__)))
 CLAIMED = {
     # id: (technique, level text, level note, design ref)
     "C01": ("table extraction and agreement over MIR: accepted-shape sets per carrier (both directions), fixed widths (array sizes / const generics / evaluated constants), sentinel constants, vector-codec arms, CqlValue encode/decode arm consistency, null-padding guards",
-            "Static, the tables that encoder and decoder must share, compared in full: for each carrier the serializer's and the type-checker's accepted column types agree and equal the documented set; for each fixed-width native the bytes written, the length demanded on read, the CQL v4 width and the vector codec's element size agree; -1/-2 sentinels and the invalid placeholder agree between CellWriter and read_value/read_bytes_opt; both sides of the vector codec branch on the same size function with consistent arms; each column shape that decodes to a CqlValue variant is accepted by the serializer and the typed decoder of that variant; short tuples/UDTs are null-padded by construction. Byte-exactness of individual values and equality after round trip are numerical and not decided.",
+            "Static, the tables that encoder and decoder must share, compared in full: for each carrier the serializer's and the type-checker's accepted column types agree and equal the documented set; for each fixed-width native the bytes written, the length demanded on read, the CQL v4 width and the vector codec's element size agree, and the set of natives the vector codec packs without a per-element length equals the protocol's fixed-length set; -1/-2 sentinels and the invalid placeholder agree between CellWriter and read_value/read_bytes_opt; both sides of the vector codec branch on the same size function with consistent arms; each column shape that decodes to a CqlValue variant is accepted by the serializer and the typed decoder of that variant; short tuples/UDTs are null-padded by construction. Byte-exactness of individual values and equality after round trip are numerical and not decided.",
             "Trusts rustc MIR; CQL v4 widths/sentinels and the documented type matrix transcribed by hand.",
             "DESIGN.md §3 C01"),
     "C02": ("who-may-call / who-writes census on the stream-id structures, def-use provenance of registered ids and delivered frames, dominance and cut rules on lookup/orphan/reader, guard-across-await check on pre-lowering coroutine MIR",
@@ -26,7 +26,7 @@ CLAIMED = {
             "Trusts rustc MIR construction; SAFE set transcribed from the property text; user-supplied policies out of scope.",
             "DESIGN.md §3 C06"),
     "C07": ("dataflow regions over PagingStateResponse variants, def-use provenance of the cursor, CFG cut rules on the producer loops of the pre-lowering coroutines, guard region on the consumer",
-            "Static, all page splits and consumer behaviours for the clauses that are code shape: MorePages/Continue is produced only on the HasMorePages arm and the cursor is assigned from that arm's state (never on NoMorePages); every attempt is given the current cursor and a new pager starts from PagingState::start(); both producer loops fetch the next page only after this iteration's page was sent with an awaited Ok and more pages were announced, and stop on a closed channel, on NoMorePages/Break and after an error was sent; the consumer replaces its page only when exhausted; every page goes through the common retry core with a fresh plan. (The re-sent EXECUTE keeping its paging state is C14.R2.)",
+            "Static, all page splits and consumer behaviours for the clauses that are code shape: MorePages/Continue is produced only on the HasMorePages arm and the cursor is assigned from that arm's state (never on NoMorePages); every attempt is given the current cursor and a new pager starts from PagingState::start(); both producer loops fetch the next page only after this iteration's page was sent with an awaited Ok and more pages were announced, and stop on a closed channel, on NoMorePages/Break and after an error was sent; the consumer replaces its page only when exhausted; every page goes through the common retry core with a fresh plan; no hand-written poll function of the row stream can return Pending after an inner poll returned Ready without waking the task or polling again (an empty page cannot strand the consumer). (The re-sent EXECUTE keeping its paging state is C14.R2.)",
             "Trusts rustc MIR and mpsc FIFO semantics.",
             "DESIGN.md §3 C07"),
     "C08": ("call-graph reachability from decode entry points + panic-site census with reviewed/discharged table, shape-set consistency of `unreachable!` arms, origin classification of allocation sizes, SCC recursion review",
@@ -38,7 +38,7 @@ CLAIMED = {
             "Trusts rustc MIR; CQL v4 tables transcribed by hand; compression libraries and value encodings (C01) out of scope.",
             "DESIGN.md §3 C09"),
     "C10": ("exit classification and CFG cut rules on the pre-lowering coroutines of reader / keepaliver / router / send_request / read_response_frame, dataflow guards, call-graph facts for the pool",
-            "Static, every cut offset and fault kind at once for the clauses that are code shape: the reader has no Ok exit; in read_response_frame the header is a propagated read_exact, a zero-byte read leads to an error exit and cannot re-enter the loop, and Ok is reachable only when the declared length was filled; on the Err outcome of try_join! every path to the router's exit collects the handler map, sends Err to each of its handlers and notifies the pool; both awaits of send_request map a dropped channel end to BrokenConnectionError and nothing unwraps; wrong header version/direction and keepalive timeouts are error exits; a kept connection is always watched and its removal republishes the list. Promptness and TCP behaviour are not decided.",
+            "Static, every cut offset and fault kind at once for the clauses that are code shape: the reader has no Ok exit; in read_response_frame the header is a propagated read_exact, a zero-byte read leads to an error exit and cannot re-enter the loop, and Ok is reachable only when the declared length was filled; on the Err outcome of try_join! every path to the router's exit collects the handler map, sends Err to each of its handlers and notifies the pool; both awaits of send_request map a dropped channel end to BrokenConnectionError and nothing unwraps; wrong header version/direction and keepalive timeouts are error exits; a kept connection is always watched and its removal republishes the list; every round of the keepalive loop (tick or hint) issues a keepalive, awaits it, and only a Ready reply lets the next round start. Promptness and TCP behaviour are not decided.",
             "Trusts rustc MIR; anchors are roles (read_buf loop, try_join result, oneshot sends) and fail closed when rewritten.",
             "DESIGN.md §3 C10"),
     "C12": ("def-use provenance at every RoutingInfo aggregate (through closure captures), dataflow regions in replicas_for_token, who-may-call on shard_of / ShardInfo, provenance of the pool bucket index",
@@ -50,11 +50,11 @@ CLAIMED = {
             "Trusts rustc MIR and the futures::select!/FuturesUnordered semantics.",
             "DESIGN.md §3 C13"),
     "C14": ("dataflow regions (id comparison, Unprepared arm, `?` Continue edges), def-use provenance of the re-sent frame's fields and of the metadata snapshot, who-may-call on the metadata cache",
-            "Static, all histories for the clauses that are code shape: reprepare returns Ok only where the new id equalled the old one; the EXECUTE is re-sent only on the Unprepared arm after an awaited reprepare Ok and every field of the re-sent frame is the first frame's field or built from the same request argument (no regenerated timestamp, no defaulted paging state); for each send the skip_metadata flag, the metadata id and the metadata used to decode the response come from one calculate_cached_metadata_params snapshot taken after the latest metadata read (after reprepare for the resend); the batch loop re-sends only through a successful reprepare; the cache is replaced only by reprepare or by a response that carried an id.",
+            "Static, all histories for the clauses that are code shape: reprepare returns Ok only where the new id equalled the old one; the EXECUTE is re-sent only on the Unprepared arm after an awaited reprepare Ok and every field of the re-sent frame is the first frame's field or built from the same request argument (no regenerated timestamp, no defaulted paging state); for each send the skip_metadata flag, the metadata id and the metadata used to decode the response come from one calculate_cached_metadata_params snapshot taken after the latest metadata read (after reprepare for the resend); the batch loop re-sends only through a successful reprepare and looks the UNPREPARED id up in the statement list that was actually sent (prepare_batch's output); the cache is replaced only by reprepare or by a response that carried an id.",
             "Trusts rustc MIR; server behaviour out of scope.",
             "DESIGN.md §3 C14"),
     "C15": ("who-writes census on the tablet list, normalised comparison extraction from the predicate closures (sibling agreement lookup vs. insert), cut/dominance rules on add_tablet, dataflow guard on payload validation",
-            "Static, history-independent necessary conditions: tablet_list is mutated only by add_tablet - through exactly one drain then one insert on every path - and by maintenance; range bounds are immutable; the two overlap bounds of insert are the very predicates the lookup uses (t.last < x / t.first <= x instantiated at new.first / new.last) and drain(left..right) precedes insert(left); a payload is accepted only where last > first; per-DC replica lists are filled from the full list; unresolvable tablets are dropped and the unknown-replica flags can only be raised by add_tablet. The invariant over histories as such is not enumerated.",
+            "Static, history-independent necessary conditions: tablet_list is mutated only by add_tablet - through exactly one drain then one insert on every path - and by maintenance; range bounds are immutable; the two overlap bounds of insert are the very predicates the lookup uses (t.last < x / t.first <= x instantiated at new.first / new.last) and drain(left..right) precedes insert(left); a payload is accepted only where last > first; per-DC replica lists are filled from the full list; unresolvable tablets are dropped and the unknown-replica flags can only be raised by add_tablet; the batch received from the feedback channel reaches update_tablets untouched and every element is handed to add_tablet in arrival order. The invariant over histories as such is not enumerated.",
             "Trusts rustc MIR; the rule compares siblings inside the crate rather than a frozen table.",
             "DESIGN.md §3 C15"),
     "C16": ("MIR analysis of macro-GENERATED code: a fixed family of derived structs is compiled under the fact driver; literal-arm to field/type tables, dataflow on the visited-flag accounting, positional tables of the ordered flavor",
@@ -74,7 +74,7 @@ CLAIMED = {
             "Trusts rustc MIR and tokio::sync::Notify's enable()/notify_one() permit semantics.",
             "DESIGN.md §3 C19"),
     "C20": ("CFG cut rules on the publication gate of the pool refiller, store-before-use dominance, def-use provenance of the setup event, who-constructs census of the verified-name type",
-            "Static, schedule-independent: every path that pushes a connection into the published set leaves the keyspace test through `no keyspace set` or `keyspace equal`, the `different` outcome is routed through keyspace setup and re-enters the same gate carrying the keyspace it set; the keyspace is recorded before the fan-out snapshots are taken; fan-outs await join_all over all nodes/connections before replying; VerifiedKeyspaceName is only built after validation and is the only source of the USE statement text; the response name is checked. Races as such are not enumerated.",
+            "Static, schedule-independent: every path that pushes a connection into the published set leaves the keyspace test through `no keyspace set` or `keyspace equal`, the `different` outcome is routed through keyspace setup and re-enters the same gate carrying the keyspace it set; the keyspace is recorded before the fan-out snapshots are taken; fan-outs await join_all over all nodes/connections before replying and a USE reply that is not an Err can only be sent by the two tasks that awaited the fan-out; VerifiedKeyspaceName is only built after validation and is the only source of the USE statement text; the response name is checked. Races as such are not enumerated.",
             "Trusts rustc MIR; role-based anchors on PoolRefiller / ClusterWorker / Connection::use_keyspace.",
             "DESIGN.md §3 C20"),
 }
@@ -123,7 +123,7 @@ def main():
         ],
         "checks": checks,
         "not_applicable": na,
-        "notes": "Technique family: static analysis only. Every check extracts MIR facts from /repo's current working tree (cached by source hash) and decides structural clauses of the property; see DESIGN.md.",
+        "notes": "Thorough tier: the same rule modules are run three times, over the MIR of the default feature set, of `full-serialization,metrics` and of `unstable-testing` + --cfg scylla_unstable (different cfg => different code compiled in; e.g. 8 more panic sites and 28 more carrier impls under `full`). Technique family: static analysis only. Every check extracts MIR facts from /repo's current working tree (cached by source hash) and decides structural clauses of the property; see DESIGN.md.",
     }
     with open(os.path.join(V, "MANIFEST.json"), "w") as fh:
         json.dump(m, fh, indent=1)
